@@ -428,7 +428,8 @@ def run_pass(world, pspec, vector):
     for (k_, owner_, oi_) in sched.deadlocks:
         op_ = progs[k_][oi_] if 0 <= oi_ < len(progs[k_]) else {"f": "?"}
         viol.append(_viol("C20", "I7", "deadlock", f"T:{k_}:{oi_}:{op_['f']}", pname,
-                          f"thread {k_} waits for a lock still held by thread {owner_}, which has finished: the call can never return"))
+                          (f"thread {k_} waits for a lock still held by thread {owner_}, which has finished" if owner_ is not None else
+                           f"thread {k_} waits for a notification nobody is left to send") + ": the call can never return"))
     # ------------------------------------------------------------------- end
     if stall is None:
         check_pool("end")
